@@ -146,6 +146,10 @@ fn kind_name(k: &OpKind) -> String {
         OpKind::ReadViaParam => "read_via_param".into(),
         OpKind::AddViaParam(_) => "add_via_param".into(),
         OpKind::Attack(_) => "attack".into(),
+        OpKind::ApplyViaParam(op, _) => format!("apply({op}=)"),
+        OpKind::PairShow(_) => "pair_show".into(),
+        OpKind::PairSet(..) => "pair_set".into(),
+        OpKind::PairTie => "pair_tie".into(),
     }
 }
 
@@ -514,7 +518,7 @@ pub fn run_concurrent(sc: &Scenario) -> RunReport {
             }
             let entries: Vec<&HistEntry> = hist
                 .iter()
-                .filter(|h| h.op.cell == cell && !matches!(h.op.kind, OpKind::Pull | OpKind::SelfShow | OpKind::SelfSet(_) | OpKind::SelfTie | OpKind::MkFresh(_) | OpKind::Attack(_)))
+                .filter(|h| h.op.cell == cell && !matches!(h.op.kind, OpKind::Pull | OpKind::SelfShow | OpKind::SelfSet(_) | OpKind::SelfTie | OpKind::MkFresh(_) | OpKind::Attack(_) | OpKind::PairShow(_) | OpKind::PairSet(..) | OpKind::PairTie))
                 .collect();
             if entries.len() <= 1 {
                 continue;
@@ -544,7 +548,7 @@ fn overlaps(entries: &[&HistEntry]) -> u64 {
     let mut n = 0;
     for (i, a) in entries.iter().enumerate() {
         for b in entries.iter().skip(i + 1) {
-            let rmw = |h: &HistEntry| matches!(h.op.kind, OpKind::Compound(..) | OpKind::AddViaParam(_));
+            let rmw = |h: &HistEntry| matches!(h.op.kind, OpKind::Compound(..) | OpKind::AddViaParam(_) | OpKind::ApplyViaParam(..));
             if rmw(a) && rmw(b) && a.inv < b.ret && b.inv < a.ret && a.thread != b.thread {
                 n += 1;
             }
